@@ -120,7 +120,7 @@ def run(ctx: Ctx):
     for cfg in ("MCL_mem", "MCL_parts") + (() if q else ("MCL_mem2", "MCL_both")):
         ctx.model_check(AREA, "MCQ_base", cfg, timeout=1800)
     # request level: get_input_stream + LimitedStream abstraction + parser loop + decoder model vs the contract
-    ctx.model_check(AREA, "MCFL", "MCFL_q" if q else "MCFL_t", timeout=3000)
+    ctx.model_check(AREA, "MCFL", "MCFL_q" if q else "MCFL_t", timeout=7200)
     from .. import tlc
     for bad in (("MCFL_bad_term",) if q else ("MCFL_bad_term", "MCFL_bad_field")):
         r = tlc.run_tlc(AREA, "MCFL", bad, workers=ctx.workers, tmp=ctx.tmp, allow_violation=True, timeout=1800)
